@@ -14,6 +14,7 @@ import ast, copy
 from common import repo_ast, GenError, HEADER
 import py2gal
 from py2gal import Fn
+import failclosed
 
 SRC = 'oslo_utils/imageutils/format_inspector.py'
 
@@ -64,7 +65,15 @@ ITEMS = [
 
 COQ_TY = {'bool': 'bool', 'int': 'Z', 'bytes': 'bytes'}
 
+# each translated property must be the one definition of its class, each class the one direct FileInspector subclass of that name
+# (`super().virtual_size`), `struct` the real module (tools/gen/failclosed.py)
+FAILCLOSED = {'generate': [{'src': SRC, 'mod': 'oslo_utils.imageutils.format_inspector',
+    'classes': {cls: {'bases': ['FileInspector']} for cls, _, _ in ITEMS},
+    'functions': {cls + '.virtual_size': {'decorators': ['property'], 'defaults': {}} for cls, _, _ in ITEMS},
+    'imports': {'struct': 'struct'}}]}
+
 def generate():
+    failclosed.check_all(FAILCLOSED['generate'])
     tree = repo_ast(SRC)
     parts = [HEADER % (SRC, 'tools/gen/gen_C07.py (py2gal)'),
              'Require Import OV.Base.Bytes OV.Base.Py OV.Model.C07_Struct.\nOpen Scope Z_scope.\n']
